@@ -3,12 +3,16 @@ from checks.generic import standard
 def run(ctx):
     return standard(ctx,
         props=[("Props.C11", ["c11_roundtrip", "c11_extract_minted", "c11_iff", "c11_only_v4",
-                              "c11_malformed_never_widens", "c11_numeric_prefix", "c11_refresh_same_blocks", "c11_old_decoder_panics"])],
+                              "c11_malformed_never_widens", "c11_numeric_prefix", "c11_refresh_same_blocks", "c11_old_decoder_panics",
+                              "c11_refresh_sound", "c11_refresh_complete", "c11_refresh_chain_same", "c11_refresh_chain_reach",
+                              "c11_narrowing_by_base_refuted",
+                              "c11_canon_wf", "c11_mint_parse_exact", "c11_mint_parse_numeric", "c11_mint_parse_readback"])],
         harness=("TestVerif_C11", ["kmd/common.go", "kmd/creds.go", "kmd/consts.go", "kmd/c11.go"]),
-        cases=("CasesC11.v", [("c11_verify_mismatches", "VerifyIPRestrictedX509CertIP = model verify_ip on minted certificates"),
-                              ("c11_wf_mismatches", "every minted block list satisfies the theorem's well-formedness hypothesis"),
-                              ("c11_extract_mismatches", "ExtractIPNets = model extract"),
-                              ("c11_malformed_mismatches", "verdict on corrupted extensions = model verify_ip")], "CasesC11.idx"),
+        cases=("CasesC11.v", [("c11_verify_mismatches", "VerifyIPRestrictedX509CertIP on certificates minted from CIDR texts (any address of the block) = model verify_ip on mint_request (canonicalised by the model)"),
+                              ("c11_wf_mismatches", "every requested block list is something a CIDR text can denote (hypothesis of c11_mint_parse_exact) and its canonical form is well-formed"),
+                              ("c11_extract_mismatches", "ExtractIPNets of the minted certificate = model extract = canonical forms of the requested blocks"),
+                              ("c11_malformed_mismatches", "verdict on corrupted extensions = model verify_ip"),
+                              ("c11_refresh_mismatches", "refresh requests carrying every minting parameter (equal / narrower / wider / disjoint / malformed netblocks, other identities, durations, unknown parameters): answer, identity and netblocks of the returned certificate = model refresh", "CasesC11R.idx")], "CasesC11.idx"),
         trusted=["encoding/asn1 and crypto/x509 parse the extension in front of the model (the model starts at the unmarshalled bit strings)",
                  "net.ParseIP / IPNet.Contains semantics as modelled by peer/contains (octet-wise mask comparison), validated against an independent numeric oracle in the harness"],
         assumptions=["TLS chain verification is done by crypto/tls; the harness supplies VerifiedChains built from certificates really signed by the state's CA keys"])
